@@ -6,5 +6,6 @@ mkdir -p out evidence
 java -version >/dev/null 2>&1
 test -f /opt/veriftools/tla/tla2tools.jar
 /venv/bin/python -c "import mido, numpy"
-chmod +x check tools/*.sh 2>/dev/null || true
+chmod +x check tools/*.sh tools/*.py 2>/dev/null || true
+sh tools/sany_all.sh      # every specification module parses
 echo setup ok
